@@ -181,7 +181,7 @@ def _run(ctx, replay):
         ops = split_ops(txt.splitlines())
         check_history(ops, env, 'replay')
     else:
-        nh, nops = (4, 2500) if ctx.tier == 'quick' else (14, 9000)
+        nh, nops = (4, 2500) if ctx.tier == 'quick' else (30, 12000)
         all_ops = []
         for i in range(nh):
             g = xrlops.OpGen(random.Random(ctx.rng.getrandbits(64)), meta)
